@@ -61,8 +61,28 @@ def align_cond(a, b, closers):
                         if close is False:
                             continue
                         x = b[j + 5:k]
-                        w = '\\begin{' + x
-                        opened = SX.Or(*[SX.s_eq(a[p:p + len(w)], w) for p in range(0, n - len(w) + 1)])
+                        # \\begin, optional blanks, {X  occurs in the input
+                        opts = []
+                        for p in range(0, n - 6 - len(x)):
+                            b0 = SX.s_eq(a[p:p + 6], '\\begin')
+                            if b0 is False:
+                                continue
+                            blanks = []
+                            r = p + 6
+                            while r < n:
+                                ob = SX.ch_eq(a[r], '{')
+                                if ob is not False:
+                                    # the name as printed may itself have lost blank runs before openers (C08 allowance)
+                                    for q in range(r + 1 + len(x), min(n, r + 1 + len(x) + 6) + 1):
+                                        o = SX.s_eq(a[r + 1:q], x) if q == r + 1 + len(x) else align_cond(a[r + 1:q], x, False)
+                                        if o is not False:
+                                            opts.append(SX.And(*([b0] + blanks + [ob, o])))
+                                bl = SX.ch_among(a[r], BLANKS)
+                                if bl is False:
+                                    break
+                                blanks = blanks + [bl]
+                                r += 1
+                        opened = SX.Or(*opts) if opts else False
                         if opened is False:
                             continue
                         alts.append(SX.And(c, close, opened, f(i, k + 1)))
@@ -74,23 +94,55 @@ def align_cond(a, b, closers):
 
 def name_ws_sig(inp, out, closers):
     """classifier for the known finding "whitespace directly inside the braces of an environment name is dropped"
-    (TexExpr.__init__ strips the name): does removing exactly that whitespace explain the difference?
+    (TexExpr.__init__ strips the name).  Candidate runs: a blank run directly after the brace that opens a
+    \\begin name, or directly before the brace that closes it (or before the end of input if it is never closed).
+    The counterexample is that finding iff deleting some of exactly these runs makes the alignment oracle hold.
     Concrete mode only (runs inside detail printers)."""
+    import itertools
     import re
-    names = set()
-    try:
-        soup = TexSoup(inp, tolerance=1 if closers else 0)
-        for n in soup.descendants:
-            if isinstance(n, TexNode) and isinstance(n.expr, TexNamedEnv):
-                names.add(str(n.expr.name))
-    except Exception:
-        pass
-    names.add('')
-    norm = inp
-    for nm in sorted(names, key=len, reverse=True):
-        norm = re.sub(r'(\\begin[ \t]*\n?[ \t]*\{)\s*' + re.escape(nm) + r'\s*(\}|$)', lambda m: m.group(1) + nm + m.group(2), norm)
-    if norm != inp and align_cond(norm, out, closers):
-        return 'env-name-whitespace'
+    n = len(inp)
+
+    def name_group_end(j):
+        """index of the brace that closes the group opened at j (comments and escapes skipped), or n"""
+        depth = 0
+        i = j
+        while i < n:
+            ch = inp[i]
+            if ch == '\\':
+                i += 2
+                continue
+            if ch == '%':
+                while i < n and inp[i] not in '\n\r':
+                    i += 1
+                continue
+            if ch == '{':
+                depth += 1
+            elif ch == '}':
+                depth -= 1
+                if depth == 0:
+                    return i
+            i += 1
+        return n
+
+    runs = []
+    for m in re.finditer(r'\\begin[ \t\n\r]*\{', inp):
+        j = m.end() - 1
+        e = name_group_end(j)
+        lead = re.match(r'\s+', inp[j + 1:e])
+        if lead:
+            runs.append((j + 1, j + 1 + lead.end()))
+        trail = re.search(r'\s+$', inp[j + 1:e])
+        if trail and (not lead or trail.start() > 0):
+            runs.append((j + 1 + trail.start(), e))
+    runs = sorted(set(runs))
+    runs = runs[:6]
+    for k in range(1, len(runs) + 1):
+        for sub in itertools.combinations(runs, k):
+            norm = inp
+            for a0, a1 in sorted(sub, reverse=True):
+                norm = norm[:a0] + norm[a1:]
+            if align_cond(norm, out, closers):
+                return 'env-name-whitespace'
     return 'other'
 
 
